@@ -23,7 +23,7 @@ package lexer
 //@      typ == TTClosePar ? (val == ")" && u[pos] == ')') :
 //@      typ == TTChoice ? (val == "|" && u[pos] == '|') :
 //@      typ == TTRep ? (val == "..." && u[pos] == '.' && u[pos+1] == '.' && u[pos+2] == '.') :
-//@      typ == TTDoubleDash ? (val == "--" && u[pos] == '-' && u[pos+1] == '-' && (pos+2 == len(u) || u[pos+2] == ' ')) :
+//@      typ == TTDoubleDash ? (val == "--" && u[pos] == '-' && u[pos+1] == '-' && (pos+2 == len(u) || blank(u[pos+2]))) :
 //@      typ == TTShortOpt ? (len(val) == 2 && u[pos] == '-' && letter(u[pos+1]) && (pos+2 == len(u) || (!letter(u[pos+2]) && u[pos+2] != '-'))) :
 //@      typ == TTOptSeq ? (len(val) >= 2 && u[pos] == '-' && (forall i int :: pos+1 <= i && i < pos+1+len(val) ==> letter(u[i])) &&
 //@                         (pos+1+len(val) == len(u) || (!letter(u[pos+1+len(val)]) && u[pos+1+len(val)] != '-'))) :
